@@ -186,6 +186,7 @@ def run_plan(plan, oracle_factory, collect=None):
                 # the library raised on its own in a fault-free operation: not judged here (C15 judges
                 # "every call succeeds"); the run cannot continue meaningfully.
                 result["aborted"] = "%s: %s" % (type(ctx.exc).__name__, str(ctx.exc)[:120])
+                result["aborted_at"] = i
                 break
         if result["ok"] and not result["aborted"]:
             for orc in oracles:
